@@ -115,8 +115,8 @@ def decorator_blocks(repo: Repo):
 class _StubV:
     """the function a stub definition hands to the decorator"""
 
-    def __init__(self, name, qual):
-        self.name, self.qual = name, qual
+    def __init__(self, name, qual, params=()):
+        self.name, self.qual, self.params = name, qual, list(params)
 
     def __repr__(self):
         return "<stub %s>" % self.qual
@@ -130,19 +130,33 @@ def blocked_stubs(repo: Repo):
             continue
         for node in tree.body:
             if isinstance(node, ast.FunctionDef) and is_blocked_def(node):
-                out.append((node.name, node.name, rel))
+                out.append((node.name, node.name, rel, [a.arg for a in node.args.args]))
             if isinstance(node, ast.ClassDef):
                 for sub in node.body:
                     if isinstance(sub, ast.FunctionDef) and is_blocked_def(sub):
-                        out.append((sub.name, node.name + "." + sub.name, rel))
+                        out.append((sub.name, node.name + "." + sub.name, rel, [a.arg for a in sub.args.args]))
     return out
 
 
+class _DecoMade:
+    """decorator(caller) of the `decorator` package: applied to f it gives a function that calls caller(f, *args, **kwargs)"""
+
+    def __init__(self, caller):
+        self.caller = caller
+
+
+class _Wrapped:
+    def __init__(self, caller, f):
+        self.caller, self.f = caller, f
+
+
 def interpreted_decorator(repo: Repo, rep: Report):
-    """B1, second half: the wrapper is *interpreted* once per stub (the wrapped function known by its name): whatever it computes on
-    the way, what comes out must be NetworkXNotImplemented - not a KeyError from a lookup made for the message, not a return."""
+    """B1: ``not_implemented()`` is evaluated, the decorator it returns is applied to each blocked stub (known by its name) and
+    the function that results is called - without arguments and with the graph as only argument.  Whatever is computed on the
+    way, what comes out must be NetworkXNotImplemented: not a KeyError from a lookup made for the message, not an IndexError
+    from args[0], not a return."""
     from .ordertype import OrderType
-    from .absint import Interp, Const, TupleV, DictObj, AbstractRaise, Unsupported, BoundMethod
+    from .absint import Interp, Const, TupleV, DictObj, AbstractRaise, Unsupported, BoundMethod, Builtin, LocalFuncV, SelfV, Opaque
     from .query_check import QueryWorld, SHAPES
 
     class W(QueryWorld):
@@ -155,50 +169,87 @@ def interpreted_decorator(repo: Repo, rep: Report):
                 raise Unsupported(node, "attribute %s of the wrapped function" % attr)
             if isinstance(obj, Const) and isinstance(obj.v, (str, bytes)):
                 return BoundMethod(obj, attr)
+            if isinstance(obj, TypeOfV) and attr in ("__name__", "__qualname__"):
+                return Const(obj.name)
             return super().load_attr(ip, obj, attr, node)
+
+        def type_of(self, ip, v):
+            if isinstance(v, SelfV):
+                return TypeOfV("DynGraph")
+            return super().type_of(ip, v)
 
         def resolve_name(self, ip, name, node):
             if name == "nx":
-                from .absint import Opaque
                 return Opaque("module:nx")
+            if name == "decorator":
+                return Builtin("decorator-package")
             return super().resolve_name(ip, name, node)
 
+        def call_builtin(self, ip, name, args, kwargs, node):
+            if name == "decorator-package" and len(args) == 1 and isinstance(args[0], LocalFuncV) and not kwargs:
+                return _DecoMade(args[0])
+            return super().call_builtin(ip, name, args, kwargs, node)
+
+        def call(self, ip, f, args, kwargs, node):
+            if isinstance(f, _DecoMade) and len(args) == 1 and not kwargs:
+                return _Wrapped(f.caller, args[0])
+            if isinstance(f, _Wrapped):
+                # the `decorator` package preserves the signature of f: keyword arguments reach the caller as positionals
+                full = list(args)
+                for p_ in f.f.params[len(args):]:
+                    if p_ in kwargs:
+                        full.append(kwargs[p_])
+                return ip.call_local(f.caller, [f.f] + full, {}, node)
+            if isinstance(f, _StubV):
+                self.stub_called = True
+                return Const(None)
+            return super().call(ip, f, args, kwargs, node)
+
+    class TypeOfV:
+        hashable_value = True
+
+        def __init__(self, name):
+            self.name = name
+
     outer = repo.get(DECORATORS, "not_implemented")
-    inner = [n for n in ast.walk(outer) if isinstance(n, ast.FunctionDef) and n is not outer]
     stubs = blocked_stubs(repo)
-    if not inner or not stubs:
+    if not stubs:
         return 0
-    w_fn = inner[0]
-    params = [a.arg for a in w_fn.args.args]
     cls = "DynGraph"
     n = 0
-    for name, qual, rel in stubs:
-        world = W(cls, SHAPES[False][0], {}, repo.class_methods(CLASSES[cls], cls), repo.functions(DECORATORS))
-        world.current_rel = DECORATORS
-        ip = Interp(world, OrderType([["t"]], [], 2), max_depth=6)
-        env = {}
-        if params:
-            env[params[0]] = _StubV(name, qual)
-        for p_ in params[1:]:
-            env[p_] = Const(None)
-        if w_fn.args.vararg:
-            env[w_fn.args.vararg.arg] = TupleV([])
-        if w_fn.args.kwarg:
-            env[w_fn.args.kwarg.arg] = DictObj()
-        n += 1
-        try:
-            ip.call_function(w_fn, env)
-            outcome = "returns"
-        except AbstractRaise as r:
-            outcome = r.exc
-        except Unsupported as ex:
-            rep.stats["B1.interpretation"] = "abstained for %s: %s" % (qual, ex)       # the syntactic half of B1 stands alone
-            continue
-        if outcome != "NetworkXNotImplemented":
-            rep.finding("B1.decorator", repo.construct(DECORATORS, "not_implemented"), "stub:%s:%s" % (qual, outcome),
-                        "for the blocked %s (%s) the wrapper %s instead of raising NetworkXNotImplemented" % (
-                            qual, rel, "returns normally" if outcome == "returns" else "raises %s" % outcome), line=w_fn.lineno)
-    rep.ob("B1.decorator", repo.construct(DECORATORS, "not_implemented"), "wrapper interpreted for each of the %d blocked stubs: NetworkXNotImplemented" % n)
+    for name, qual, rel, params in stubs:
+        values = [SelfV()] + [Const(None)] * (len(params) - 1) if params else []
+        for label, call_args, call_kwargs in (("called with positional arguments", values, {}),
+                                              ("called with every argument given by keyword", [], dict(zip(params, values)))):
+            world = W(cls, SHAPES[False][0], {}, repo.class_methods(CLASSES[cls], cls), repo.functions(DECORATORS))
+            world.current_rel = DECORATORS
+            world.stub_called = False
+            ip = Interp(world, OrderType([["t"]], [], 2), max_depth=8)
+            n += 1
+            try:
+                deco = ip.call_function(outer, {})
+                wrapped = ip.apply_value(deco, [_StubV(name, qual, params)], outer)
+                if isinstance(wrapped, LocalFuncV):
+                    ip.call_local(wrapped, list(call_args), dict(call_kwargs), outer)
+                elif call_kwargs:
+                    ip.apply_value(wrapped, list(call_args), outer, kwargs=dict(call_kwargs))
+                else:
+                    ip.apply_value(wrapped, list(call_args), outer)
+                outcome = "returns"
+            except AbstractRaise as r:
+                outcome = r.exc
+            except Unsupported as ex:
+                rep.stats["B1.interpretation"] = "abstained for %s: %s" % (qual, ex)       # the syntactic half of B1 stands alone
+                continue
+            if world.stub_called:
+                outcome = "calls the blocked function"
+            if outcome != "NetworkXNotImplemented":
+                rep.finding("B1.decorator", repo.construct(DECORATORS, "not_implemented"), "stub:%s:%s" % (qual, outcome),
+                            "the blocked %s (%s), %s, %s instead of raising NetworkXNotImplemented" % (
+                                qual, rel, label, "returns normally" if outcome == "returns" else (
+                                    outcome if outcome.startswith("calls") else "raises %s" % outcome)), line=outer.lineno)
+    rep.ob("B1.decorator", repo.construct(DECORATORS, "not_implemented"),
+           "decorator evaluated, applied to each of the %d blocked stubs and the result called (positional / keyword arguments): NetworkXNotImplemented" % len(stubs))
     return n
 
 
@@ -383,12 +434,21 @@ def check_blocking(repo: Repo, rep: Report):
     rep.stats["networkx_files"] = [nx["Graph:file"], nx["DiGraph:file"]]
     n_inst = 0
     # ---- B1 -------------------------------------------------------------------
+    # B1: the wrapper is interpreted once per blocked stub; the syntactic recogniser is only consulted where the interpretation
+    # abstained, and a shape it does not recognise is then *unknown*, never a violation
+    n_before = len(rep.findings)
+    n_stubs = interpreted_decorator(repo, rep)
+    n_inst += n_stubs
+    interpreted_all = n_stubs > 0 and "B1.interpretation" not in rep.stats
     ok, why = decorator_blocks(repo)
-    rep.ob("B1.decorator", repo.construct(DECORATORS, "not_implemented"), "wrapper raises NetworkXNotImplemented unconditionally", ok=ok)
     n_inst += 1
-    if not ok:
-        rep.finding("B1.decorator", repo.construct(DECORATORS, "not_implemented"), "conditional-block", why)
-    n_inst += interpreted_decorator(repo, rep)
+    if interpreted_all:
+        rep.ob("B1.decorator", repo.construct(DECORATORS, "not_implemented"), "syntactic shape of the wrapper (advisory: the interpretation decided)", ok=True)
+    elif ok:
+        rep.ob("B1.decorator", repo.construct(DECORATORS, "not_implemented"), "wrapper raises NetworkXNotImplemented unconditionally (shape)", ok=True)
+    elif len(rep.findings) == n_before:
+        raise AnalysisError("not_implemented: %s, and its wrapper could not be interpreted for every stub (%s)" % (
+            why, rep.stats.get("B1.interpretation", "no blocked stub found")))
     # ---- positive control: stock networkx must show its mutators ----------------------
     class _Stock:
         cls = "DynGraph"
